@@ -653,6 +653,10 @@ def run(ctx):
     _CTX[0] = ctx
     # R10 BUILD-PARITY: the mutators and result() do the same with and without debug assertions
     debug_parity(ctx, 'C10.R10', sorted(MUTATORS) + ['game::Game::result'])
+    # R11 STATUS (= C04.R1): "checkmate" / "stalemate" in result() are Board::status(), whose decision table must be right
+    from . import c04
+    sub = Sub(ctx, {'C04.R1': 'C10.R11'})
+    c04.r1(sub)
     r9(ctx)
     r12(ctx)
     r3(ctx)
